@@ -159,10 +159,9 @@ def counting_discipline(chk, F, rule, cfg, fn, rows):
             ok = len(nr) == 1
             recv = strip(nr[0].data[2][0]) if nr else ('unk', '')
             # receiver is payload .1 of the selector's Some((idx, pattern))
-            good_recv = False
-            root, ns = field_path(recv)
-            if ns[-2:] == ['0', '1'] or ns[-1:] == ['1']:
-                good_recv = mentions(recv, lambda x: is_call(x, r'^eval::DynCtx::match_call_pattern$'))
+            # the receiver is the CallPattern inside the selector's result (tuple slot or named field: the type system only lets a
+            # `&CallPattern` through, and the selector's result holds exactly one)
+            good_recv = mentions(recv, lambda x: is_call(x, r'^eval::DynCtx::match_call_pattern$'))
             chk.ob(rule, 'the selected pattern (and only it) is counted, exactly once', ok and good_recv, config=cfg, fn=fn, site='next_responder',
                    what='counting of the selected pattern', found={'calls': len(nr), 'receiver': show(recv)}, expected='one next_responder on the pattern returned by the selector')
             if r.outcome == 'Ok:Responder':
@@ -188,7 +187,7 @@ def counting_discipline(chk, F, rule, cfg, fn, rows):
     chk.ob(rule, 'next_responder is called from exactly one site (eval_dyn)', len(callers) == 1 and callers[0][0].endswith('::eval_dyn'), config=cfg, fn=nr,
            site='callers', what='callers of next_responder', found=callers, expected=['eval::DynCtx::eval_dyn'])
     acc = L.field_accesses(F, 'counter::CallCounter', 'actual_count')
-    users = sorted(set(b.defp for b, _, _, _ in acc))
+    users = L.attributed(F, acc)
     ok = set(users) <= {'counter::CallCounter::fetch_add', 'counter::CallCounter::verify', 'counter::CallCountExpectation::into_counter'}
     chk.ob(rule, 'actual_count is only touched by construction, the bump and verification', ok, config=cfg, site='field:actual_count', what='users of actual_count',
            found=users, expected=['into_counter', 'fetch_add', 'verify'])
@@ -211,7 +210,7 @@ def method_isolation(chk, F, rule, cfg, paths):
     callpath = F.reachable_fns([F.fn('private::eval')])
     for b, bb, k, s in L.field_accesses(F, 'state::SharedState', 'fn_mockers'):
         if b.root in callpath or b.defp in callpath:
-            ok = b.defp in ('eval::DynCtx::<\'u, \'_>::eval_dyn', 'state::SharedState::find_ordered_expected_call_pattern_debug')
+            ok = L.owners_of(F, b) <= {'eval::DynCtx::<\'u, \'_>::eval_dyn', 'state::SharedState::find_ordered_expected_call_pattern_debug'}
             chk.ob(rule, 'per-method table is only read by eval_dyn (and the order-error message helper)', ok, config=cfg, fn=b, site='field:fn_mockers',
                    what='extra reader of fn_mockers on the call path', found=b.defp)
     # eval::eval builds the context from F::info() of its own F and the instance's shared state
@@ -454,9 +453,15 @@ def selector_rules(chk, F, cfg, r_scan='R01.1', r_pure='R01.2', r_ord='R04.5', r
                 chk.ob(r_scan, 'unordered selection = forward first-hit: %s' % ' <- '.join(x.rsplit('::', 1)[-1] for x in names), len(consumers) == 1, config=cfg, fn=fn,
                        site='scan', what='no single first-hit consumer', found=names)
             # the only closure in the pipeline is the accept closure
-            for e in p.calls(r'Iterator::(filter_map|find_map|find|filter|position|map)$'):
+            for e in p.calls(r'Iterator>?::(filter_map|find_map|find|filter|position|map)$'):
                 c = strip(e.data[2][1])
-                if c[0] == 'agg' and c[1] == 'closure':
+                if c[0] == 'agg' and c[1] == 'closure' and re.search(r'Iterator>?::map$', e.data[1]):
+                    # a projection between the list and the accept step (e.g. pairing each element with its index): it must be pure
+                    # and hand every element on (it cannot drop or reorder: `map` is one-to-one)
+                    cf = F.fns[c[2]]
+                    calls = [symex.callee_name(t) for _, t in cf.calls()]
+                    chk.ob(r_pure, 'a projection inside the unordered scan is pure (consults nothing)', not calls, config=cfg, fn=cf, site='scan-projection', what='projection calls %s' % calls, found=calls)
+                elif c[0] == 'agg' and c[1] == 'closure':
                     accept_closure(chk, F, r_pure, cfg, F.fns[c[2]], e.data[1])
                 else:
                     chk.ob(r_pure, 'accept predicate is a closure literal', False, config=cfg, fn=fn, site='accept', unrecognised=True, what='opaque accept predicate', found=show(c))
@@ -529,7 +534,7 @@ def selector_rules(chk, F, cfg, r_scan='R01.1', r_pure='R01.2', r_ord='R04.5', r
             chk.ob(r_bump, 'the slot counter is bumped from exactly one site (ordered arm of the selector)', len(callers) == 1 and callers[0][0].endswith('::match_call_pattern'),
                    config=cfg, fn=bump, site='callers', what='callers of slot bump', found=callers)
         acc = L.field_accesses(F, 'state::SharedState', 'next_ordered_call_index') if r_bump else []
-        users = sorted(set(b.defp for b, _, _, _ in acc))
+        users = L.attributed(F, acc)
         if r_bump:
             chk.ob(r_bump, 'next_ordered_call_index is only touched by construction and the bump', len(users) == 2 and 'state::SharedState::new' in users, config=cfg,
                site='field:next_ordered_call_index', what='users of the slot counter', found=users)
@@ -716,6 +721,8 @@ def slot_lookup(chk, F, rule, cfg):
     chk.analysed(fn)
     own = lambda x: x[0] == 'ref' and x[1][1][-1:] == (('f', 'call_patterns'),) and x[1][0] == ('ptr', ('param', 0, 1))  # noqa: E731
     plumbing = re.compile(r'(Try>?::branch$|FromResidual<.*>::from_residual$)')
+    if paths and any(p.called(r'Iterator>?::next$') for p in paths) and not any(p.called(r'Iterator>?::(find|find_map|position)$') for p in paths):
+        return slot_lookup_loop(chk, F, rule, cfg, fn, own)
     for p in paths:
         v = p.outcome[1] if p.outcome[0] == 'return' else ('unk', '')
         names = L.pipeline_calls(v, own)
@@ -754,6 +761,84 @@ def slot_lookup(chk, F, rule, cfg):
                 slot_predicate(chk, F, rule, cfg, F.fns[c[2]])
             else:
                 chk.ob(rule, 'slot predicate is a closure literal', False, config=cfg, fn=fn, site='pred', unrecognised=True, what='opaque slot predicate', found=show(cref))
+
+
+def slot_lookup_loop(chk, F, rule, cfg, fn, own):
+    """`for (index, pattern) in self.call_patterns.iter().enumerate() { if <pattern owns slot i> { return Some((PatIndex(index), pattern)) } } None`"""
+    paths = symex.Interp(F, loop_bound=3).run(fn)
+    n = 0
+    first_iter = {}      # (decisions of the first iteration as (cmp/contains, truth) tuples) -> accepted?
+    unrec = False
+    for p in paths:
+        n += 1
+        # split the decisions by iteration
+        iters = []
+        for d in p.decisions:
+            v = strip(d.value)
+            if L.is_iter_next(v):
+                iters.append({'next': strip(v[1]), 'some': decision_variant(F, d) == 'Some', 'decs': []})
+            elif iters:
+                iters[-1]['decs'].append(d)
+        ok, why = True, ''
+        for e in p.calls(r'Iterator>?::next$'):
+            pn = L.pipeline_calls(e.data[2][0], own)
+            if pn is None or not all(LOOP_SRC_OK.search(x) for x in pn):
+                ok, why = False, 'not a plain forward walk over the method\'s own patterns: %s' % (pn,)
+        lab = 'Some' if (p.outcome[0] == 'return' and strip(p.outcome[1])[0] == 'agg' and strip(p.outcome[1])[3] == 'Some') else ('None' if p.outcome[0] == 'return' and strip(p.outcome[1])[0] == 'agg' and strip(p.outcome[1])[3] == 'None' else 'other')
+        if ok and lab == 'Some':
+            cur = iters[-1]['next'] if iters and iters[-1]['some'] else None
+            v = strip(strip(p.outcome[1])[4][0][1])
+            parts = dict(v[4]) if v[0] == 'agg' else {}
+            idx = strip(parts.get('0', ('unk', '')))
+            idx = strip(idx[4][0][1]) if idx[0] == 'agg' and idx[4] else idx
+            el = strip(parts.get('1', ('unk', '')))
+            ok = cur is not None and mentions(idx, lambda x: x == cur) and mentions(el, lambda x: x == cur) and field_path(idx)[1][-1:] == ['0'] and field_path(el)[1][-1:] == ['1']
+            why = 'the owner must be returned with its own enumeration index: %s' % show(v)[:100]
+        elif ok and lab == 'None':
+            ok = bool(iters) and not iters[-1]['some']
+            why = 'None only after the whole list has been walked'
+        elif ok:
+            ok, why = False, 'unexpected result %s' % show(p.outcome[1])[:80]
+        chk.ob(rule, 'slot lookup (loop form) scans the method\'s own list forward to the first owner', ok, config=cfg, fn=fn, site='scan-loop', what='slot scan loop: %s' % why if not ok else 'slot scan loop', found=why if not ok else None)
+        # predicate of the first iteration
+        if iters and iters[0]['some']:
+            key = []
+            for d in iters[0]['decs']:
+                inner, t = L.truth_of(d)
+                if t is None:
+                    unrec = True
+                    continue
+                key.append((inner, t))
+            accepted = len(iters) == 1 and lab == 'Some'
+            first_iter[tuple(key)] = accepted
+    # evaluate the predicate on the partition of (i - start, i - end)
+    for d1 in (-1, 0, 1):
+        for d2 in (-1, 0, 1):
+            if d2 > d1:
+                continue
+            outs = set()
+            for key, accepted in first_iter.items():
+                feasible = True
+                for inner, t in key:
+                    if is_call(inner, r'ops::Range(<Idx>)?::contains$|RangeBounds>?::contains$') and field_path(strip(inner)[2][0])[1][-1:] == ['ordered_call_index_range']:
+                        val = d1 >= 0 and d2 < 0
+                    else:
+                        cmp = as_comparison(inner)
+                        val = eval_slot_cmp(cmp, d1, d2) if cmp else None
+                    if val is None:
+                        unrec = True
+                        continue
+                    if val != t:
+                        feasible = False
+                        break
+                if feasible:
+                    outs.add(accepted)
+            want = (d1 >= 0) and (d2 < 0)
+            chk.ob(rule, 'slot ownership: start <= i < end  (region i-start=%+d, i-end=%+d)' % (d1, d2), outs == {want}, config=cfg, fn=fn, site='pred(%+d,%+d)' % (d1, d2),
+                   what='slot predicate boundary (i-start=%+d,i-end=%+d) -> %s' % (d1, d2, sorted(outs)), found=sorted(outs), expected=[want])
+    chk.ob(rule, 'slot predicate is a conjunction of comparisons of the call index with the pattern\'s range bounds', not unrec and bool(first_iter), config=cfg, fn=fn, site='pred-shape', unrecognised=True,
+           what='slot predicate shape (loop form)')
+    chk.floor(rule, 'paths of the loop-form slot lookup', n, 3, config=cfg)
 
 
 def slot_predicate(chk, F, rule, cfg, cf):
